@@ -71,7 +71,7 @@ def access_path(n):
        ('call', qname, node) | ('other', kind).  Looks through implicit casts and parens."""
     out = []
     while n is not None:
-        n = strip(n)
+        n = strip(n, casts=True)
         k = n.get("k")
         if k == "CXXThisExpr":
             out.append(("this",))
